@@ -16,6 +16,7 @@ import CE.Rules.Measure
 import CE.Cte.ArrFmt
 import CE.Cte.Lit
 import CE.Cte.ArrEngine
+import CE.Marshal.Struct
 /-
   Line-protocol driver: executes the model's definitions on the operations the Go
   harness ran on the implementation.  Input line:  kind \t id \t op \t arg... \t => \t expected
@@ -368,8 +369,39 @@ def cteEngine (args : List String) : String :=
     | _, _ => "BADINPUT"
   | _ => "BADINPUT"
 
+def parseOmit (s : String) : Marshal.Struct.Omit :=
+  if s == "never" then .never else if s == "always" then .always else if s == "empty" then .empty
+  else if s == "zero" then .zero else .chooseDefault
+
+/-- STRUCT.EMIT style default fields(Name~tag~empty~zero;…) → OK key,key,… | ERR (a tag panics) -/
+def structEmit (args : List String) : String :=
+  match args with
+  | [style, dflt, fields] =>
+    let descs := if fields == "" then [] else fields.splitOn ";"
+    let parsed : Option (List Marshal.Struct.Field) := descs.mapM fun d =>
+      match d.splitOn "~" with
+      | [name, tag, e, z] =>
+        (Marshal.Struct.decodeTags name.toList tag.toList).map fun t =>
+          ({ tags := t, isEmpty := e == "1", isZero := z == "1" } : Marshal.Struct.Field)
+      | _ => none
+    match parsed with
+    | none => "ERR"
+    | some fs =>
+      let st := if style == "snake" then Marshal.Struct.Style.snake else .camel
+      "OK " ++ String.intercalate "," ((Marshal.Struct.emitted st (parseOmit dflt) fs).map String.ofList)
+  | _ => "BADINPUT"
+
+/-- STRUCT.LOOKUP ci names(|) key → index of the field the key reaches, -1 for none -/
+def structLookup (args : List String) : String :=
+  match args with
+  | [ci, names, key] =>
+    match Marshal.Struct.lookup (ci == "1") ((names.splitOn "|").map String.toList) key.toList with
+    | some i => toString i
+    | none => "-1"
+  | _ => "BADINPUT"
+
 def ops : List (String × (List String → String)) :=
-  [("CBE.ENC", cbeEnc), ("CBE.DEC", cbeDec), ("CANON.EQ", canonEq), ("RULES", rulesOp), ("WF.REL", wfRel), ("FWD.EQ", fwdEq), ("MEASURE", measureOp), ("CBE.MINLEN", minLenOp), ("API.DETECT", apiDetect), ("API.VERSION", apiVersion), ("READER.ALL", readerAll), ("READER.FAULT", readerFault), ("TREE.EQ", treeEq), ("ARR.TOLE", arrToLE), ("ARR.FROMLE", arrFromLE), ("CONV", convOp), ("CTE.ARRFMT", cteArrFmt), ("CTE.ARRPARSE", cteArrParse), ("CTE.ENGINE", cteEngine), ("LIT.NUM", litNum), ("LIT.ELEM", litElem), ("LIT.STR", litStr)]
+  [("CBE.ENC", cbeEnc), ("CBE.DEC", cbeDec), ("CANON.EQ", canonEq), ("RULES", rulesOp), ("WF.REL", wfRel), ("FWD.EQ", fwdEq), ("MEASURE", measureOp), ("CBE.MINLEN", minLenOp), ("API.DETECT", apiDetect), ("API.VERSION", apiVersion), ("READER.ALL", readerAll), ("READER.FAULT", readerFault), ("TREE.EQ", treeEq), ("ARR.TOLE", arrToLE), ("ARR.FROMLE", arrFromLE), ("CONV", convOp), ("CTE.ARRFMT", cteArrFmt), ("CTE.ARRPARSE", cteArrParse), ("CTE.ENGINE", cteEngine), ("STRUCT.EMIT", structEmit), ("STRUCT.LOOKUP", structLookup), ("LIT.NUM", litNum), ("LIT.ELEM", litElem), ("LIT.STR", litStr)]
 
 def splitArrow : List String → List String × String
   | [] => ([], "")
